@@ -18,8 +18,8 @@ Qed.
 (* ---- insertion sort on candidates ---- *)
 Lemma insert_c_perm x l : Permutation (insert_c x l) (x :: l).
 Proof.
-  induction l as [|y l IH]; cbn; [apply Permutation_refl|].
-  destruct (snd y <=? snd x); [|apply Permutation_refl].
+  induction l as [|y l IH]; cbn [insert_c]; [apply Permutation_refl|].
+  destruct (snd y <? snd x); [|apply Permutation_refl].
   eapply Permutation_trans; [apply perm_skip; exact IH|apply perm_swap].
 Qed.
 Lemma sort_c_perm l : Permutation (sort_c l) l.
@@ -33,14 +33,14 @@ Proof. intros H; inversion H; subst; split; assumption. Qed.
 
 Lemma insert_c_sorted x l : sorted l -> sorted (insert_c x l).
 Proof.
-  induction l as [|y l IH]; intros Hs; cbn.
+  induction l as [|y l IH]; intros Hs; cbn [insert_c].
   - constructor; constructor.
   - apply sorted_inv in Hs. destruct Hs as [Hy Hs].
-    destruct (snd y <=? snd x) eqn:E.
-    + apply Z.leb_le in E. constructor; [|apply IH; exact Hs].
+    destruct (snd y <? snd x) eqn:E.
+    + apply Z.ltb_lt in E. constructor; [|apply IH; exact Hs].
       rewrite Forall_forall in *. intros z Hz.
-      apply (Permutation_in _ (insert_c_perm x l)) in Hz. destruct Hz as [Hz|Hz]; [subst z; exact E|apply Hy; exact Hz].
-    + apply Z.leb_gt in E. constructor; [|constructor; assumption].
+      apply (Permutation_in _ (insert_c_perm x l)) in Hz. destruct Hz as [Hz|Hz]; [subst z; lia|apply Hy; exact Hz].
+    + apply Z.ltb_ge in E. constructor; [|constructor; assumption].
       constructor; [lia|]. rewrite Forall_forall in *. intros z Hz. specialize (Hy z Hz). lia.
 Qed.
 Lemma sort_c_sorted l : sorted (sort_c l).
